@@ -95,6 +95,23 @@ func DecodeTLCLine(line []byte) (*Case, bool) {
 	return &c, true
 }
 
+var (
+	driftMu    sync.Mutex
+	driftCount int
+	driftNotes []string
+)
+
+// NoteDrift records a protocol-level difference between the model's exact
+// prediction and what the code did; it never affects the verdict.
+func NoteDrift(msg string) {
+	driftMu.Lock()
+	defer driftMu.Unlock()
+	driftCount++
+	if len(driftNotes) < 3 {
+		driftNotes = append(driftNotes, msg)
+	}
+}
+
 // MaxViol bounds the number of violations kept per signature.
 const MaxViol = 3
 
@@ -204,6 +221,10 @@ func Replay(world string, path string, workers int) (*Report, error) {
 	col.add(w.Finish())
 	col.rep.Cases = int(cases)
 	col.rep.Nontrivial = int(nontriv)
+	col.rep.Drift = driftCount
+	if len(driftNotes) > 0 {
+		col.rep.Notes = driftNotes
+	}
 	sortViol(col.rep.Violations)
 	return &col.rep, nil
 }
